@@ -251,11 +251,13 @@ def checkRowV (fks : List FkDecl) : Nat → Seen → Db → Nat → Row → Exce
       runActsV (fun child seen db v => checkRowV fks f seen db child v) row acts ((t, row) :: seen) db
 
 /-- `DeleteExecutor` after the repairs: every selected row with a fresh `in_progress`, then the
-selected rows still present are deleted (found again by value / primary key) -/
-def deleteWithFksV (fks : List FkDecl) (fuel : Nat) (db : Db) (t : Nat) (sel : Row → Bool) : Except CErr Db :=
+selected rows are deleted — at their positions when the table kept its size, otherwise found again by
+primary key `pk`; both are "the rows whose primary key is the key of a selected row" (SET NULL may
+have changed other columns of a selected row of a self-referencing table in the meantime) -/
+def deleteWithFksV (fks : List FkDecl) (fuel : Nat) (db : Db) (t : Nat) (pk : List Nat) (sel : Row → Bool) : Except CErr Db :=
   let victims := (db t).filter sel
   match runVictimsV (fun _ db v => checkRowV fks fuel [] db t v) victims [] db with
   | .error e => .error e
-  | .ok (db1, _) => .ok (db1.set t ((db1 t).filter (fun r => !(victims.contains r))))
+  | .ok (db1, _) => .ok (db1.set t ((db1 t).filter (fun r => !((victims.map (keyOf pk)).contains (keyOf pk r)))))
 
 end VibeProof.Dml
